@@ -32,6 +32,79 @@ type vgen struct {
 	budget int
 	// what was deliberately built
 	aliasPtr, aliasSlice, aliasMap, subSlice, ptrIntoSlice int
+	// sized cases: the first container (in depth-first order) that the hint matches gets
+	// exactly hint.size elements / entries; until it is reached nothing on the way is nil or
+	// empty, so that it IS reached
+	hint *sizeHint
+}
+
+type sizeHint struct {
+	kind  string
+	match func(t reflect.Type) bool
+	size  int
+	used  bool
+	got   int // elements / entries the container really has
+}
+
+// forcing: a sized container is still to come.
+func (g *vgen) forcing() bool { return g.hint != nil && !g.hint.used }
+
+// elemBudget bounds what hangs below ONE element of a sized container.
+const elemBudget = 4
+
+func (g *vgen) bigSlice(v reflect.Value) {
+	t, h := v.Type(), g.hint
+	h.used = true
+	n := h.size
+	cp := n
+	if g.r.IntN(3) == 0 {
+		cp += 1 + g.r.IntN(3)
+	}
+	s := reflect.MakeSlice(t, n, cp)
+	saved := g.budget
+	for i := 0; i < n; i++ {
+		g.budget = elemBudget
+		g.fill(s.Index(i))
+	}
+	g.budget = saved
+	h.got = n
+	v.Set(s)
+	if n > 0 {
+		g.slices[t.Elem()] = append(g.slices[t.Elem()], s)
+	}
+}
+
+func (g *vgen) bigMap(v reflect.Value) {
+	t, h := v.Type(), g.hint
+	h.used = true
+	n := h.size
+	m := reflect.MakeMap(t)
+	saved := g.budget
+	for tries := 0; m.Len() < n && tries < 30*n+100; tries++ {
+		g.budget = elemBudget
+		k := reflect.New(t.Key()).Elem()
+		g.fillKey(k)
+		e := reflect.New(t.Elem()).Elem()
+		g.fill(e)
+		m.SetMapIndex(k, e)
+	}
+	g.budget = saved
+	h.got = m.Len()
+	v.Set(m)
+	g.maps[t] = append(g.maps[t], m)
+}
+
+// fillKey is fill for the key of a sized map: integers are drawn from a range wide enough for
+// a thousand distinct keys (fill's own range is -1000..1000).
+func (g *vgen) fillKey(k reflect.Value) {
+	switch k.Kind() {
+	case reflect.Int, reflect.Int64:
+		k.SetInt(int64(g.r.IntN(2_000_001) - 1_000_000))
+	case reflect.String:
+		k.SetString(g.str() + strconv.Itoa(g.r.IntN(100000)))
+	default:
+		g.fill(k)
+	}
 }
 
 func newVgen(r *rand.Rand) *vgen {
@@ -89,6 +162,9 @@ func (g *vgen) fill(v reflect.Value) {
 		c := r.IntN(100)
 		pool := g.ptrs[t]
 		sl := g.slices[t.Elem()]
+		if g.forcing() {
+			c = 99 // a fresh target: the sized container may lie below
+		}
 		switch {
 		case c < 12 || g.budget <= 0:
 			return // nil
@@ -114,6 +190,13 @@ func (g *vgen) fill(v reflect.Value) {
 	case reflect.Slice:
 		c := r.IntN(100)
 		pool := g.slices[t.Elem()]
+		if g.forcing() {
+			if g.hint.match(t) {
+				g.bigSlice(v)
+				return
+			}
+			c = 99
+		}
 		switch {
 		case c < 9 || g.budget <= 0:
 			return // nil
@@ -152,6 +235,13 @@ func (g *vgen) fill(v reflect.Value) {
 	case reflect.Map:
 		c := r.IntN(100)
 		pool := g.maps[t]
+		if g.forcing() {
+			if g.hint.match(t) {
+				g.bigMap(v)
+				return
+			}
+			c = 99
+		}
 		switch {
 		case c < 10 || g.budget <= 0:
 			return // nil
@@ -181,7 +271,7 @@ func (g *vgen) fill(v reflect.Value) {
 		}
 	case reflect.Struct:
 		if isOption(t) {
-			if r.IntN(10) < 3 {
+			if r.IntN(10) < 3 && !g.forcing() {
 				return // None
 			}
 			snap.Field(v, 0).SetBool(true)
@@ -465,12 +555,26 @@ func (l *local) add(k string, n int64) { l.c[k] += n }
 func runCase(w *vrt.W, i int, loc *local, perBatch int) {
 	g := w.Batch*perBatch + i
 	e := table[g%len(table)]
-	r := w.Rand(i)
+	runValueCase(w, i, loc, e, newVgen(w.Rand(i)))
+}
+
+// runValueCase: one value of expression e, drawn by vg, through the three oracles.
+func runValueCase(w *vrt.W, i int, loc *local, e *tbl.Expr, vg *vgen) {
 	site := "clone." + e.Tree.Comb()
 	w.Begin(i, site)
-	vg := newVgen(r)
 	orig := reflect.New(e.Typ).Elem()
 	vg.fill(orig)
+	if h := vg.hint; h != nil {
+		switch {
+		case !h.used:
+			loc.add("sized.container_not_reached", 1)
+		case h.got != h.size:
+			loc.add("sized.inexact", 1) // key universe too small for that many entries
+		default:
+			loc.add("sized."+h.kind+"."+strconv.Itoa(h.size), 1)
+			loc.add("sized.values", 1)
+		}
+	}
 	snapO := snap.Snapshot(orig)
 	reachO := snap.Reachable(orig)
 	witness := func() any {
@@ -623,20 +727,58 @@ func main() {
 		}
 		return 8000
 	}
+	// batch layout: [classic | sized | conc (first half in the -race build)]; new families are
+	// appended so that the PRNG streams of the classic batches stay where they were
+	classic := func(tier string) int {
+		if tier == "thorough" {
+			return 256
+		}
+		return 32
+	}
+	sized := func(tier string) int {
+		if tier == "thorough" {
+			return 16
+		}
+		return 4
+	}
+	conc := func(tier string) int {
+		if tier == "thorough" {
+			return 8
+		}
+		return 4
+	}
 	vrt.Main(vrt.Config{
-		Property: "C18",
-		Batches: func(tier string) int {
-			if tier == "thorough" {
-				return 256
+		Property:    "C18",
+		WorkerProcs: 8,
+		Batches:     func(tier string) int { return classic(tier) + sized(tier) + conc(tier) },
+		Cases: func(tier string, b int) int {
+			switch {
+			case b < classic(tier):
+				return perBatch(tier)
+			case b < classic(tier)+sized(tier):
+				return sizedPerBatch(tier)
 			}
-			return 32
+			if tier == "thorough" {
+				return 400
+			}
+			return 150
 		},
-		Cases: func(tier string, b int) int { return perBatch(tier) },
+		RaceBatch: func(tier string, b int) bool {
+			c := b - classic(tier) - sized(tier)
+			return c >= 0 && c < conc(tier)/2
+		},
 		Run: func(w *vrt.W) {
 			loc := &local{c: map[string]int64{}}
 			pb := perBatch(w.Tier)
 			for i := w.From; i < w.To; i++ {
-				runCase(w, i, loc, pb)
+				switch b := w.Batch - classic(w.Tier); {
+				case b < 0:
+					runCase(w, i, loc, pb)
+				case b < sized(w.Tier):
+					runSizedCase(w, i, loc, b)
+				default:
+					runConcCase(w, i, loc)
+				}
 			}
 			ks := make([]string, 0, len(loc.c))
 			for k := range loc.c {
@@ -683,10 +825,43 @@ func main() {
 					f[k] *= 10
 				}
 			}
+			// sized containers: every kind at every length (exactly that many elements / entries)
+			for _, k := range sizedKinds {
+				for _, n := range sizedLens {
+					f["sized."+k+"."+strconv.Itoa(n)] = 5
+				}
+			}
+			// one instance value used by many goroutines at once
+			f["conc.cases"] = 500
+			f["conc.clones"] = 10000
+			f["conc.cases_with_16_or_more_goroutines"] = 150
+			for _, c := range []string{"Ptr", "Slice", "Seq", "GoMap", "Option", "HCons", "Generic", "Tuple2", "Tuple3"} {
+				f["conc.hit."+c] = 20
+			}
 			return f
 		},
 		Finish: func(tier string, m *vrt.Merged, cov map[string]any) {
 			cov["expressions_in_table"] = len(table)
+			cov["sized_container_lengths"] = sizedLens
+			sc := map[string]int{}
+			for k, es := range sizedCands {
+				sc[k] = len(es)
+			}
+			cov["expressions_with_a_container_of_kind"] = sc
+			if cs, ok := cov["counters"].(map[string]int64); ok {
+				least := map[string]int64{}
+				for _, k := range sizedKinds {
+					least[k] = -1
+					for _, n := range sizedLens {
+						key := "sized." + k + "." + strconv.Itoa(n)
+						if v := m.Counters[key]; least[k] < 0 || v < least[k] {
+							least[k] = v
+						}
+						delete(cs, key) // 76 counters: summarised
+					}
+				}
+				cov["sized_values_per_length_at_least"] = least
+			}
 			byDepth := map[string]int{}
 			for _, e := range table {
 				byDepth[strconv.Itoa(e.Depth)]++
